@@ -3,6 +3,7 @@
 import collections
 import contextlib
 import datetime
+import decimal
 import math
 import re
 import signal
@@ -49,7 +50,8 @@ LIMIT = 10 ** 15
 #   a container may carry 'cls': the HOST-CREATED dict / list subclass it is an instance of ({'a': [...], 'cls': 'MyList'},
 #   {'o': [...], 'cls': 'OrderedDict'}); without 'cls' it is the plain list / dict scripts create themselves
 #   HOST-ONLY values of an unexpected but indexable type: {'tuple': [...]} | {'bytes': text} | {'range': n} | {'ikeys': [[int, v]...]} (a
-#   dict with int keys) | {'strsub': text} (an instance of a str subclass)
+#   dict with int keys) | {'strsub': text} (an instance of a str subclass) | {'dec': text} decimal.Decimal | {'frac': n} fractions.Fraction
+#   {'f': '-0.0'} is the negative zero
 # ---------------------------------------------------------------------------------------------------------------------
 
 class MyDict(dict):
@@ -222,6 +224,10 @@ def build(enc, sp):
         return {int(k): build(v, sp) for k, v in enc['ikeys']}
     if 'strsub' in enc:
         return MyStr(enc['strsub'])
+    if 'dec' in enc:
+        return decimal.Decimal(enc['dec'])
+    if 'frac' in enc:
+        return Fraction(enc['frac'])
     raise ValueError(f'bad encoded value {enc!r}')
 
 
@@ -396,6 +402,48 @@ SCHEMA_TYPES = O(['A', O(struct=O(name='A', members=A(
     ['E', O(enum=O(name='E', values=A(O(name='x'), O(name='y'))))])
 
 
+# Magnitude SCALE axis.  The property quantifies over every integral |n| < 1e15; an int-only or float-only idiom (n * n, n * 1000, int(n * k),
+# n << k, '%d' % n, a 32-bit range check) is exact for small n and starts to differ at some magnitude: 2^31 / 2^32 (machine words), ~9.49e7 =
+# sqrt(2^53) (a square leaves the exact range), 2^53 / 10^k = 9.0e12 / 9.0e9 ... (n * 10^k leaves it), 2^57 / 1000 = 1.44e14, 2^58 / 1000,
+# 2^59 / 1000 (n * 1000 - milliseconds to microseconds - needs n to be a multiple of 2, 4, 8 to stay exact), 1e15 - 1 (the top of the
+# range).  The 2^53 neighbourhood itself is OUTSIDE the quantifier (>= 1e15).  Every generator of numbers draws from this ladder: the point,
+# its +-2 neighbourhood (both parities), random values of both parities in the band between two points, both signs.
+SCALE_POINTS = [1, 2 ** 16, 10 ** 6, 2 ** 24, 94906267, 10 ** 9, 2 ** 31, 2 ** 32, 9007199255, 10 ** 10, 10 ** 12, 2 ** 40, 9007199254741, 10 ** 13,
+                10 ** 14, 144115188075856, 2 ** 48, 288230376151712, 2 ** 49, 576460752303424, 10 ** 15 - 1]
+SCALE_REQUIRED = [1, 2 ** 31, 94906267, 10 ** 9, 10 ** 12, 144115188075856, 10 ** 15 - 1]
+
+
+def scale_values(points=None, radius=2, signs=(1, -1)):
+    """The +-radius neighbourhood of every scale point, both signs, inside the quantifier (|n| < 1e15)."""
+    out = []
+    for p in points or SCALE_POINTS:
+        for d in range(-radius, radius + 1):
+            for s in signs:
+                v = s * (p + d)
+                if abs(v) < LIMIT and v not in out:
+                    out.append(v)
+    return out
+
+
+# the small deterministic pool that goes to EVERY argument position of EVERY function and into the all-pairs operator table: the required
+# points, an odd and an even value at each, a few negatives
+SCALE_POOL = [2 ** 31, 2 ** 31 + 1, 94906267, 94906268, 10 ** 9, 10 ** 9 + 1, 10 ** 12, 10 ** 12 + 1, 144115188075856, 144115188075857, 10 ** 15 - 2,
+              10 ** 15 - 1, -94906267, -(10 ** 9 + 1), -(10 ** 12 + 1), -144115188075857, -(10 ** 15 - 1)]
+
+
+def gen_scaled(rng):
+    """One integral number from the magnitude ladder: a neighbour of a scale point or a random value (random parity) of a band."""
+    if rng.random() < 0.45:
+        v = rng.choice(SCALE_POINTS) + rng.randint(-2, 2)
+    else:
+        i = rng.randrange(len(SCALE_POINTS) - 1)
+        v = rng.randint(SCALE_POINTS[i], SCALE_POINTS[i + 1])
+        if rng.random() < 0.5:
+            v |= 1
+    v = max(0, min(LIMIT - 1, v))
+    return -v if rng.random() < 0.25 else v
+
+
 def gen_num(rng, integral_bias=0.8):
     r = rng.random()
     if r < integral_bias * 0.7:
@@ -403,7 +451,7 @@ def gen_num(rng, integral_bias=0.8):
     if r < integral_bias * 0.85:
         return N(rng.choice(EDGE))
     if r < integral_bias:
-        return N(rng.choice(BIG))
+        return N(rng.choice(BIG) if rng.random() < 0.4 else gen_scaled(rng))
     if r < 0.98:
         return {'f': rng.choice(FRACS)}
     return {'f': rng.choice(['nan', 'inf', '-inf', '1e300'])}
@@ -428,16 +476,23 @@ def gen_object(rng, depth=0):
     return O(*[[k, gen_any(rng, depth + 1)] for k in keys])
 
 
-def gen_rows(rng, fields=None):
+def gen_rows(rng, fields=None, big=None):
     fields = fields or FIELDS
     rows = []
+    # magnitude scale: now and then ONE field holds numbers of every magnitude in all rows (sums, averages, deviations, sort keys, join keys,
+    # calculated fields over large values)
+    big_fields = big if big is not None else ((rng.choice(fields),) if rng.random() < 0.15 else ())
     for _ in range(rng.randint(0, 6)):
         row = []
         for f in fields:
             r = rng.random()
             if r < 0.1:
                 continue
-            row.append([f, N(rng.randint(0, 4)) if r < 0.75 else (None if r < 0.8 else ({'f': rng.choice(FRACS)} if r < 0.9 else rng.choice(STRINGS)))])
+            if f in big_fields and r < 0.9:
+                row.append([f, N(gen_scaled(rng))])
+                continue
+            row.append([f, (N(rng.randint(0, 4)) if r < 0.72 else N(gen_scaled(rng))) if r < 0.75 else
+                        (None if r < 0.8 else ({'f': rng.choice(FRACS)} if r < 0.9 else rng.choice(STRINGS)))])
         row.append(['s', rng.choice(['abc', 'hello', 'zz', '101'])])
         rows.append(O(*row))
     return A(*rows)
@@ -495,7 +550,7 @@ def gen_typed(rng, fname, am, ctx_args):
             if r < 0.89 and lo is not None:
                 return N(int(lo) - 1)
             if r < 0.94:
-                return N(rng.choice(BIG + EDGE))
+                return N(rng.choice(BIG + EDGE)) if rng.random() < 0.6 else N(gen_scaled(rng))
             return {'f': rng.choice(FRACS)}
         return gen_num(rng, 0.6)
     if typ == 'string':
@@ -565,8 +620,8 @@ def sp_string_index(rng, fname):
     return [s, _idx(rng, n)]
 
 
-def sp_data(rng, fname):
-    rows = gen_rows(rng)
+def sp_data(rng, fname, big=None):
+    rows = gen_rows(rng, big=big)
     variables = rng.choice([None, O(n=N(rng.randint(1, 5))), O(n=N(2), s='xyz')])
     if fname == 'dataAggregate':
         ms = [O(field=rng.choice(FIELDS), function=rng.choice(['average', 'count', 'max', 'min', 'stddev', 'sum']))]
@@ -581,7 +636,7 @@ def sp_data(rng, fname):
     if fname == 'dataFilter':
         return [rows, rng.choice(EXPRS), variables][:rng.choice([2, 3])]
     if fname == 'dataJoin':
-        return [rows, gen_rows(rng), rng.choice(['a', 'b', 'a + b', 'a * 1']), rng.choice([None, 'a', 'b']),
+        return [rows, gen_rows(rng, big=big), rng.choice(['a', 'b', 'a + b', 'a * 1']), rng.choice([None, 'a', 'b']),
                 rng.choice([True, False, N(1), N(0)]), variables][:rng.choice([3, 4, 5, 6])]
     if fname == 'dataSort':
         return [rows, A(*[A(rng.choice(FIELDS), rng.choice([True, False, N(1), N(0)])) if rng.random() < 0.7 else A(rng.choice(FIELDS))
@@ -721,6 +776,9 @@ def tame(fname, args):
             args[ix] = N(3000 if fname != 'jsonStringify' else 40)
         if ix < len(args) and isinstance(args[ix], dict) and 'f' in args[ix] and args[ix]['f'] in ('1e300', 'inf'):
             args[ix] = N(7)
+    if any(isinstance(a, str) and 'rept(' in a for a in args):
+        # an expression string that repeats text by a row value: keep every number of the case small enough to allocate
+        args[:] = [cap_nums(a, 70000) for a in args]
     return args
 
 
@@ -774,10 +832,11 @@ def count_nums(enc):
 
 BIN_OPS = ['**', '*', '/', '%', '+', '-', '<=', '<', '>=', '>', '==', '!=', '&&', '||']
 UN_OPS = ['-', '!']
-OP_NUMS = [0, 1, -1, 2, 3, 7, 10, 40, 53, 64, 100, 400, 1000, 99999999, 94906267, 10 ** 14 + 1, 10 ** 15 - 1, -(10 ** 14) - 3]
+OP_NUMS = [0, 1, -1, 2, 3, 7, 10, 40, 53, 64, 100, 400, 1000, 99999999, 94906267, 10 ** 14 + 1, 10 ** 15 - 1, -(10 ** 14) - 3,
+           2 ** 31, 10 ** 9 + 1, 10 ** 12 + 1, 144115188075857, -144115188075857, 288230376151713]
 OP_OTHERS = [{'f': '0.5'}, {'f': '-1.5'}, {'f': '2.25'}, {'f': '1e-07'}, 'abc', '', '5', None, True, False,
              {'dt': [2020, 1, 31, 10, 20, 30, 500000]}, {'date': [2021, 6, 15]}, A(N(1), N(2)), A(N(1), A(N(2), 'x')), A(), O(a=N(1)), O(a=N(1), b=A(N(2))),
-             {'re': ['a+', 0]}, {'fn': 'cmpNum'}]
+             {'re': ['a+', 0]}, {'fn': 'cmpNum'}, {'dt': [1, 1, 1]}, {'dt': [1000, 1, 1]}, {'dt': [9999, 12, 31, 23, 59, 59, 999000]}]
 
 
 def run_op(case, spl, spr):
@@ -853,7 +912,21 @@ def gen_script(rng):
              'd = arrayNew(objectNew(\'k\', 1, \'v\', 5), objectNew(\'k\', 1, \'v\', 6), objectNew(\'k\', 2, \'v\', 7))']
     i = lambda: str(rng.randint(0, n if rng.random() < 0.9 else n + 2))  # noqa: E731
     v = lambda: str(rng.choice([rng.randint(0, 9), rng.randint(10, 100), 2.5, 0.125]))  # noqa: E731
+
+    def big():
+        n = gen_scaled(rng)
+        return str(n) if n >= 0 else f'({n})'
     templates = [
+        # magnitude scale: literals (floats as parsed, ints in the int spelling) of every magnitude below 1e15 in arithmetic, comparison, text,
+        # rounding and next to the host ints that numberParseInt / mathFloor / arrayLength return
+        lambda: f"r{rng.randint(0, 9)} = {big()} {rng.choice(['+', '-', '*', '/', '%', '==', '<', '>='])} {big()}",
+        lambda: f"r{rng.randint(0, 9)} = '' + ({big()} {rng.choice(['+', '-', '*', '%'])} {rng.choice([big(), v()])}) + ':' + {big()}",
+        lambda: f"r{rng.randint(0, 9)} = {big()} ** {rng.choice(['2', '2', '3', '0.5', '-1', '1'])}",
+        lambda: f"r{rng.randint(0, 9)} = arrayNew(numberToFixed({big()}, {rng.randint(0, 4)}), mathRound({big()} / {rng.choice([7, 1000, 3])}, {rng.randint(0, 6)}))",
+        lambda: f"nb = {rng.choice([94906267, 123456789, 4294967296, 144115188075857, 999999999999999])}\n"
+                f"r{rng.randint(0, 9)} = arrayNew(numberParseInt('' + nb) {rng.choice(['**', '*', '+', '%'])} 2 == nb {rng.choice(['**', '*', '+', '%'])} 2, "
+                f"stringNew(numberParseInt('' + nb) * nb), mathFloor(nb / 1000) * 1000 + nb % 1000 == nb)",
+        lambda: f"r{rng.randint(0, 9)} = arrayNew(mathMax({big()}, {big()}), arrayIndexOf(arrayNew({big()}, 94906267), 94906267), jsonStringify(arrayNew({big()})))",
         lambda: f'r{rng.randint(0, 9)} = arrayGet(a, {i()})',
         lambda: f'arraySet(a, {i()}, {v()})',
         lambda: f'r{rng.randint(0, 9)} = arraySlice(a, {i()}, {i()})',
@@ -1189,12 +1262,13 @@ V_SMALL = list(range(0, 38))                       # every radix, every digit co
 V_LARGE = [59, 60, 61, 99, 100, 101, 365, 366, 999, 1000, 1001, 1023, 1024, 4095, 4096, 9999, 10000, 10001, 65535, 65536, 10 ** 6,
            2 ** 31 - 1, 2 ** 31, 2 ** 32 - 1, 2 ** 32, 2 ** 49, 10 ** 14, 10 ** 15 - 1]
 V_NEG = [-1, -2, -3, -10, -11, -12, -13, -31, -32, -100, -10000, -10001, -(2 ** 31), -(10 ** 14), -(10 ** 15 - 1)]
-VALUE_POOL = _dedupe(V_SMALL + V_LARGE + V_NEG + CHAR_CODES)
+VALUE_POOL = _dedupe(V_SMALL + V_LARGE + V_NEG + CHAR_CODES + SCALE_POOL)
 PAIR_POOL = _dedupe([0, 1, 2, 3, 9, 10, 12, 13, 31, 32, 0x7f, 0x80, 0xff, 0x100, 0xd7ff, 0xd800, 0xd83d, 0xdbff, 0xdc00, 0xde00, 0xdfff, 0xe000,
                      0xffff, 0x10000, 0x1f600, 0x10ffff, 0x110000, -1])
 ANY_POOL = _dedupe([0, 1, 2, 3, -1, -2, 10, 16, 22, 23, 36, 37, 100, 127, 128, 255, 256, 1000, 1024, 0xd7ff, 0xd800, 0xd83d, 0xdbff, 0xdc00, 0xdfff,
                     0xe000, 0xffff, 0x10000, 0x10ffff, 0x110000, 10 ** 6, 2 ** 31 - 1, 2 ** 31, 2 ** 32, 2 ** 49, 10 ** 14, 10 ** 15 - 1, -(2 ** 31),
-                    -(10 ** 15 - 1)])           # a value of any type inside an argument model (quick tier; thorough: the full pool)
+                    -(10 ** 15 - 1), 94906267, 10 ** 9 + 1, 10 ** 12 + 1, 144115188075857, -144115188075857])
+# (ANY_POOL: a value of any type inside an argument model - quick tier; thorough: the full pool)
 NONNUM_POOL = [0, 1, 3, 55357, 10 ** 14]          # numbers at a position that does not take a number
 VSTRINGS = ['', 'a', 'abc', 'hello world', 'a\U0001f600b', '\U0001f600', '\U0001f600\U0001f601', 'éx', 'ßİi', 'ab\ud83d', '\ude00z',
             '12', 'ff', 'zz', 'Z', '-7', ' 42 ', '١٢', '1_0', 'a,b,,c', 'aXbXc']
@@ -1688,13 +1762,31 @@ extract._CACHE['mods'] = extract.fresh_import()
 mod = importlib.import_module('props.C12')
 out = []
 for case in json.load(sys.stdin):
-    out.append({sp: mod.run_call(case, sp)[0] for sp in mod.FRESH_ORDER})
+    if case.get('hist'):
+        for pre_case, sp in mod.history_pre(case):
+            mod.run_subject(pre_case, sp)
+    out.append({sp: mod.run_subject(case, sp) for sp in mod.FRESH_ORDER})
 sys.stdout.write(json.dumps(out))
 """
 
+_OP_SPELLINGS = {'int': ('int', 'int'), 'float': ('float', 'float'), 'mix': ('int', 'float'), 'xim': ('float', 'int')}
+
+
+def run_subject(case, sp):
+    """One run of a call / operator / script case in one spelling (the unit a history is made of)."""
+    if case['kind'] == 'call':
+        return run_call(case, sp)[0]
+    if case['kind'] in ('binary', 'unary'):
+        return run_op(case, *_OP_SPELLINGS.get(sp, (sp, sp)))
+    if case['kind'] == 'script':
+        model = fw.impl()['parser'].parse_script(case['text'])
+        return run_script(int_literals(model) if sp == 'int' else model)
+    raise ValueError(case['kind'])
+
 
 def fresh_calls(cases):
-    """run_call of every case in every spelling, in a fresh interpreter process, float first."""
+    """run_subject of every case in every spelling, in a fresh interpreter process, float first; a case marked 'hist' is preceded by its
+    history (history_pre)."""
     import json
     import os
     import subprocess
@@ -1712,7 +1804,7 @@ def fresh_differs(cases, fresh=None):
     fresh = fresh if fresh is not None else fresh_calls(cases)
     out = []
     for case, fr in zip(cases, fresh):
-        here = json.loads(json.dumps({sp: run_call(case, sp)[0] for sp in SPELLINGS_EXT}))
+        here = json.loads(json.dumps({sp: run_subject(case, sp) for sp in SPELLINGS_EXT}))
         differ = any(fr[sp] != here['int'] for sp in FRESH_ORDER) or any(here[sp] != here['int'] for sp in SPELLINGS_EXT)
         out.append((differ, here, fr))
     return out
@@ -1904,6 +1996,252 @@ def value_streams(ctx, lim, names, models, modelled_cases):
                         in_process=here, fresh_process=fr)
 
     modelled_cases.extend(extra_model)
+    return sampled
+
+
+# ---------------------------------------------------------------------------------------------------------------------
+# Datetime arithmetic on the magnitude scale, and HISTORIES: ==-equal neighbour values first
+# ---------------------------------------------------------------------------------------------------------------------
+
+# early bases take the large positive offsets (1.44e14 ms = 4566 years, 3.1e14 ms = 9998 years), late bases the large negative ones
+DT_BASES = [{'dt': [1, 1, 1]}, {'dt': [1000, 1, 1]}, {'dt': [1970, 1, 1]}, {'dt': [2020, 1, 31, 10, 20, 30, 500000]}, {'dt': [5000, 6, 15, 12, 0, 0, 1000]},
+            {'dt': [9999, 12, 31, 23, 59, 59, 999000]}, {'date': [1, 1, 1]}, {'date': [2021, 6, 15]}, {'date': [9999, 12, 31]}]
+DT_EXPRS = ['d + a', 'a + d', "'' + (d + a)", '(d + a) - d', 'year(a + d)', 'if(d + a == a + d, a, 0 - a)']
+
+
+def mag_tag(n):
+    return 'mag:1e%d' % (len(str(abs(n))) - 1)
+
+
+def _lit(n):
+    return str(n) if n >= 0 else f'({n})'
+
+
+def datetime_scale_cases(ctx, rng):
+    """datetime + n / n + datetime: every base x the +-2 neighbourhood of every scale point, both signs, both operand orders; random band
+    values; now and then another operator (the result is null / a comparison in either spelling)."""
+    for base in DT_BASES:
+        for v in scale_values():
+            yield {'kind': 'binary', 'op': '+', 'left': base, 'right': N(v)}, 'dt+n', v
+            yield {'kind': 'binary', 'op': '+', 'left': N(v), 'right': base}, 'n+dt', v
+    for _ in range(ctx.scale(1200, 40000)):
+        base, v = rng.choice(DT_BASES), gen_scaled(rng)
+        op = rng.choice(['+', '+', '+', '+', '-', '<', '==', '*'])
+        if rng.random() < 0.5:
+            yield {'kind': 'binary', 'op': op, 'left': base, 'right': N(v)}, 'dt' + op + 'n', v
+        else:
+            yield {'kind': 'binary', 'op': op, 'left': N(v), 'right': base}, 'n' + op + 'dt', v
+
+
+def gen_dtscript(rng, values):
+    """The sum as script text: the offset as a LITERAL (a float as parsed / an int in the int spelling) and as a host global (int / float),
+    the sums turned into text, subtracted again, compared, taken apart."""
+    base = rng.choice(DT_BASES)
+    n = rng.choice(values) if rng.random() < 0.6 else gen_scaled(rng)
+    text = (f'r = base + {_lit(n)}\nq = off + base\n'
+            "return arrayNew(r, q, '' + r, '' + q, r - base, q - base, r == q, datetimeYear(r), datetimeMillisecond(q), datetimeISOFormat(r))\n")
+    return {'kind': 'hscript', 'text': text, 'globals': [['base', base], ['off', N(n)]]}, n
+
+
+DATA_SCALE_EXPRS = ['a + b', 'a - b', 'a * b', 'a * a', 'a ** 2', 'a / b', 'a % b', 'a % 1000', 'a * 1000', 'a == b', 'a < b', 'round(a / 3, 2)', 'fixed(a, 2)', 'text(a)',
+                    "a + ''", 'max(a, b)', 'abs(a) + 1', 'floor(a / 1000) * 1000 + a % 1000 == a', 'sqrt(a * a) == abs(a)', 'parseInt(text(a)) == a', '-a', 'if(a > b, a, b)']
+
+
+def data_scale_cases(ctx, rng):
+    """The data functions over rows whose number fields hold values of every magnitude: every aggregation function (with and without categories),
+    sort / join / top keys, calculated fields and filters with arithmetic over the large values."""
+    for _ in range(ctx.scale(40, 600)):
+        for func in ('average', 'count', 'max', 'min', 'stddev', 'sum'):
+            rows = gen_rows(rng, big=rng.choice([('a',), ('a', 'b'), ('a', 'b', 'c')]))
+            agg = [['measures', A(O(field='a', function=func), *([O(field='b', function=rng.choice(['sum', 'stddev', 'average']), name='m2')] if rng.random() < 0.3 else []))]]
+            if rng.random() < 0.4:
+                agg.insert(0, ['categories', A(rng.choice(['b', 'c', 's']))])
+            yield {'kind': 'call', 'fn': 'dataAggregate', 'args': [rows, O(*agg)]}, 'aggregate:' + func
+    for fname in ('dataSort', 'dataJoin', 'dataTop', 'dataValidate'):
+        for _ in range(ctx.scale(40, 800)):
+            yield {'kind': 'call', 'fn': fname, 'args': tame(fname, sp_data(rng, fname, big=rng.choice([('a',), ('a', 'b')])))}, fname
+    for fname in ('dataCalculatedField', 'dataFilter'):
+        for expr in DATA_SCALE_EXPRS:
+            for _ in range(ctx.scale(4, 80)):
+                rows = gen_rows(rng, big=('a', 'b'))
+                yield {'kind': 'call', 'fn': fname, 'args': [rows, 'z', expr] if fname == 'dataCalculatedField' else [rows, expr]}, fname
+
+
+def gen_dtexpr(rng, values):
+    """The sum inside dataCalculatedField expression text, datetime and offset as row fields."""
+    base = rng.choice(DT_BASES)
+    n = rng.choice(values) if rng.random() < 0.6 else gen_scaled(rng)
+    return {'kind': 'call', 'fn': 'dataCalculatedField', 'args': [A(O(d=base, a=N(n))), 'z', rng.choice(DT_EXPRS)]}, n
+
+
+# --- histories.  A cache / memo / interning table keyed by a number cannot tell apart values that are == and hash alike: 0.0 and -0.0, 1 and
+#     1.0 and True, 0 and False, n and Decimal(n) and Fraction(n).  If only ONE of the two host spellings goes through such a table (the float
+#     branch of value_string, say), then what an earlier call left there decides what the float spelling gives while the int spelling is
+#     unaffected: the outcome depends on the spelling AND on the history.  So every subject case is preceded, in a fresh interpreter, by its
+#     own history: the ways a script ordinarily produces -0.0 / true / false and turns them into text, the same call with each of its numbers
+#     replaced by each ==-equal neighbour, and the case itself in the int spelling; then the four spellings are compared as usual.
+
+NEIGHBOUR_SCRIPTS = [
+    "x = 0 * -1\ny = 0 / -5\nz = numberParseFloat('-0')\nw = jsonParse('[-0.0, -0.0e0]')\n"
+    "return arrayNew('' + x, x + '', stringNew(y), jsonStringify(x), jsonStringify(arrayNew(x, y), 2), arrayJoin(arrayNew(z, x), ','), numberToFixed(x, 2), "
+    "numberToFixed(y, 0, true), mathRound(x, 1), mathAbs(x), mathSign(y), mathMin(x, 0), mathMax(0, x), '' + w, stringNew(arrayGet(w, 1)), "
+    "systemCompare(x, 0), x == 0, arrayIndexOf(arrayNew(0, 1), x), arraySort(arrayNew(1, x, 0)), objectNew('k', x), systemBoolean(x), mathSqrt(x), "
+    "mathFloor(x), mathCeil(-0.5), stringNew(mathCeil(-0.5)), stringNew(mathRound(-0.2)), '' + (-0.2 * 0))\n",
+    "t = true\nf = false\n"
+    "return arrayNew('' + t, f + '', stringNew(t), jsonStringify(f), jsonStringify(arrayNew(t, f), 2), arrayJoin(arrayNew(t, f, 1, 0), ','), "
+    "systemCompare(t, 1), t == 1, f == 0, arrayIndexOf(arrayNew(0, 1), t), arraySort(arrayNew(t, f)), objectNew('k', t, 'j', f), systemBoolean(f), "
+    "systemType(t), mathAbs(t), numberToFixed(t, 1), mathRound(f, 0), mathMax(t, 0), stringRepeat('a', t), arrayGet(arrayNew(5, 6), f))\n",
+]
+
+
+def neighbours_of(n):
+    """Values that are == to the integral number n (and hash alike) without being its int or float spelling."""
+    out = []
+    if n == 0:
+        out += [{'f': '-0.0'}, False]
+    if n == 1:
+        out += [True]
+    return out + [{'dec': str(n)}, {'frac': n}]
+
+
+def _number_sites(case):
+    """[(where, path, n)] for every integral number of a call / operator case."""
+    sites = []
+    if case['kind'] == 'call':
+        for ix, a in enumerate(case['args']):
+            for pth in num_paths(a):
+                sites.append((ix, pth))
+    elif case['kind'] in ('binary', 'unary'):
+        for side in ('left', 'right'):
+            if side in case:
+                for pth in num_paths(case[side]):
+                    sites.append((side, pth))
+    return sites
+
+
+def _get_path(enc, path):
+    for _kind, i in path:
+        enc = enc['a'][i] if 'a' in enc else enc['o'][i][1]
+    return enc
+
+
+def _replace_site(case, where, path, v):
+    if case['kind'] == 'call':
+        args = list(case['args'])
+        args[where] = set_path(args[where], path, v)
+        return dict(case, args=args)
+    return dict(case, **{where: set_path(case[where], path, v)})
+
+
+def history_pre(case, max_sites=3):
+    """The history run before a subject case (deterministic in the case): [(case, spelling)]."""
+    pre = []
+    sites = _number_sites(case)[:max_sites]
+    values = []
+    for where, pth in sites:
+        n = _get_path(case['args'][where] if case['kind'] == 'call' else case[where], pth)['n']
+        values.append(n)
+    if any(n in (0, 1) for n in values):
+        for text in NEIGHBOUR_SCRIPTS:
+            pre.append(({'kind': 'script', 'text': text}, 'float'))
+            pre.append(({'kind': 'script', 'text': text}, 'int'))
+    for (where, pth), n in zip(sites, values):
+        for v in neighbours_of(n):
+            pre.append((_replace_site(case, where, pth, v), 'float'))
+    pre.append((case, 'int'))
+    return pre
+
+
+HIST_NUMS = [0, 0, 0, 1, 1, -1, 2, 7, 100, 94906267, 144115188075857]
+
+
+def history_subjects(ctx, rng, sampled):
+    """Subject cases of the history stream: every way a number reaches text / a comparison / an index (call and operator paths) x small shapes x
+    numbers with neighbours (0, 1) and without; then a sample of the boundary cases of arg-values / arg-pairs, those holding a 0 or 1 first."""
+    def call(fn, *args):
+        return {'kind': 'call', 'fn': fn, 'args': tame(fn, list(args))}
+    for x in _dedupe(HIST_NUMS):
+        n = N(x)
+        shapes = [('num', n), ('arr', A(n, N(1), N(0))), ('obj', O(a=n, b=N(0))), ('arr>obj', A(O(n=n), n))]
+        for shape, v in shapes:
+            for path, case in [
+                    ('stringNew', call('stringNew', v)), ('concat-right', {'kind': 'binary', 'op': '+', 'left': 'v=', 'right': v}),
+                    ('concat-left', {'kind': 'binary', 'op': '+', 'left': v, 'right': ' x'}), ('arrayJoin', call('arrayJoin', A(v, n), ',')),
+                    ('systemLog', call('systemLog', v)), ('jsonStringify', call('jsonStringify', v)), ('jsonStringify-indent', call('jsonStringify', v, N(2))),
+                    ('compare', {'kind': 'binary', 'op': '==', 'left': v, 'right': v}), ('systemCompare', call('systemCompare', v, v)),
+                    ('arrayIndexOf', call('arrayIndexOf', A(N(5), v, n), v)), ('objectNew', call('objectNew', 'k', v)), ('arraySort', call('arraySort', A(v, n, N(1))))]:
+                yield case, f'{path}:{shape}'
+        for d in (0, 1, 2):
+            yield call('numberToFixed', n, N(d)), 'numberToFixed'
+            yield call('numberToFixed', n, N(d), True), 'numberToFixed-trim'
+            yield call('mathRound', n, N(d)), 'mathRound'
+        for fn in ('mathAbs', 'mathSign', 'mathFloor', 'mathCeil', 'mathSqrt', 'systemBoolean', 'systemType', 'stringFromCharCode', 'arrayNewSize'):
+            yield call(fn, n), fn
+        for op in ('+', '-', '*', '/', '%', '**', '<', '&&', '||'):
+            for left, right in ((n, N(rng.choice(HIST_NUMS))), (N(rng.choice([3, -5, 2])), n)):
+                if op_safe(op, left, right):
+                    yield {'kind': 'binary', 'op': op, 'left': left, 'right': right}, 'op' + op
+        for op in UN_OPS:
+            yield {'kind': 'unary', 'op': op, 'left': n}, 'un' + op
+    cands = [c for c in sampled if not any(has_key(a, ('same',)) for a in c['args']) and _number_sites(c)]
+    rng.shuffle(cands)
+    first = [c for c in cands if any(_get_path(c['args'][w], pth)['n'] in (0, 1) for w, pth in _number_sites(c)[:3])]
+    rest = [c for c in cands if c not in first[:ctx.scale(500, 6000)]]
+    for c in first[:ctx.scale(500, 6000)] + rest[:ctx.scale(300, 4000)]:
+        yield {k: v for k, v in c.items() if k != 'ext'}, 'sampled:' + c['fn']
+
+
+def scale_streams(ctx, lim, sampled):
+    values = scale_values()
+    st = ctx.stream('datetime-scale', 'datetime arithmetic on the magnitude SCALE: `datetime + n` and `n + datetime` for %d bases (years 1, 1000, 1970, 2020, 5000, 9999; '
+                                      'datetime and date) x the +-2 neighbourhood (odd and even) of %d scale points from 1 to 1e15-1 (2^16, 1e6, 2^24, sqrt(2^53), 1e9, '
+                                      '2^31, 2^32, 2^53/1e6, 1e10, 1e12, 2^40, 2^53/1000, 1e13, 1e14, 2^57/1000, 2^48, 2^58/1000, 2^49, 2^59/1000) x both signs x both '
+                                      'operand orders x 4 spelling combinations + random band values of both parities (sometimes - < == *); the same sums as SCRIPT '
+                                      'TEXT (offset as a literal and as a host global: 4 runs; text of the sum, difference back, comparison, year / millisecond / '
+                                      'ISO text of the sum) and inside dataCalculatedField expression text (row fields). Results compared to the microsecond. The early '
+                                      'bases keep sums of the largest offsets below year 9999, the late ones above year 1. non-trivial = always (an integral offset)'
+                    % (len(DT_BASES), len(SCALE_POINTS)))
+    rng = ctx.rng('datetime-scale')
+    for case, how, v in datetime_scale_cases(ctx, rng):
+        check_case(ctx, lim, st, case, 'op', key=f'dts:{how}:', tags=[how, mag_tag(v)], nontrivial=True)
+    for _ in range(ctx.scale(500, 8000)):
+        case, v = gen_dtscript(rng, values)
+        check_case(ctx, lim, st, case, 'hscript', key='dts:', tags=['script', mag_tag(v)])
+    for _ in range(ctx.scale(400, 6000)):
+        case, v = gen_dtexpr(rng, values)
+        check_case(ctx, lim, st, case, 'dtexpr', key='dts:', tags=['dataexpr', mag_tag(v)], nontrivial=True, oracle='spelling-irrelevant:datetime-scale')
+
+    st = ctx.stream('data-scale', 'the data functions on the magnitude SCALE: rows whose number fields (a / a, b / a, b, c) hold values from the scale ladder in (nearly) '
+                                  'all rows: dataAggregate x each of average, count, max, min, stddev, sum (second measure, categories), dataSort / dataJoin / dataTop / '
+                                  'dataValidate over large keys, dataCalculatedField / dataFilter x %d expressions with arithmetic, comparison, rounding and text over the large '
+                                  'values (a * a, a ** 2, a * 1000, a %% 1000, parseInt(text(a)) == a, ...); int / float / alternating spelling of every row value. '
+                                  'non-trivial = an integral number occurs' % len(DATA_SCALE_EXPRS))
+    rng = ctx.rng('data-scale')
+    for case, how in data_scale_cases(ctx, rng):
+        check_case(ctx, lim, st, case, 'data-scale', key='datascale:', tags=['how:' + how], oracle='spelling-irrelevant:data-scale')
+
+    st = ctx.stream('neighbour-history', 'HISTORIES in a fresh interpreter process: before a subject case is run in its four spellings (float, alternating x 2, int) the '
+                                         'process first (a) produces -0.0 the ways scripts do (0 * -1, 0 / -5, numberParseFloat, jsonParse, mathCeil(-0.5)) and true / '
+                                         'false and turns them into text by every path (when the case holds a 0 or 1), (b) runs the SAME case with each of its first '
+                                         'three numbers replaced by each ==-equal, equal-hash neighbour (-0.0 and false for 0, true for 1, Decimal(n), Fraction(n)), (c) '
+                                         'runs the case in the int spelling.  A table keyed by the number value (lru_cache, memo dict, interning) that only one host '
+                                         'spelling goes through then answers for the neighbour.  Subjects: every text / comparison / search path x 4 shapes x numbers %r, '
+                                         'numberToFixed / mathRound / math* / operators on them, and a sample of the arg-values / arg-pairs boundary cases (those holding '
+                                         '0 or 1 first).  Compared with each other and with this process (no history).  Host-side (process state, host-only values '
+                                         'Decimal / Fraction) - not in the Lean model.' % _dedupe(HIST_NUMS))
+    rng = ctx.rng('neighbour-history')
+    cands, tags = [], []
+    for case, how in history_subjects(ctx, rng, sampled):
+        cands.append(dict(case, hist=1))
+        tags.append(how)
+    for case, how, (differ, here, fr) in zip(cands, tags, fresh_differs(cands)):
+        sites = _number_sites(case)
+        st.case(case, nontrivial=bool(sites), tags=['how:' + how.split(':')[0], f'pre:{len(history_pre(case))}'])
+        if differ:
+            lim.witness('hist:' + how.split(':')[0] + (':F15' if _is_f15({'input': case}) else ''), 'spelling-irrelevant:neighbour-history', dict(case, fresh=1),
+                        here['int'], next((fr[sp] for sp in FRESH_ORDER if fr[sp] != here['int']), None) or
+                        next(here[sp] for sp in SPELLINGS_EXT if here[sp] != here['int']), in_process=here, fresh_process=fr,
+                        history=[[pc, sp] for pc, sp in history_pre(case)][:12])
 
 
 # ---------------------------------------------------------------------------------------------------------------------
@@ -2143,7 +2481,8 @@ def streams(ctx):
                 modelled_cases.append(case)
 
     # --- operators
-    st = ctx.stream('operators', 'every binary operator x all pairs of 18 integral operands (0, +-1, small, 99999999, ~sqrt(2^53), ~1e14, 1e15-1) '
+    st = ctx.stream('operators', 'every binary operator x all pairs of %d integral operands (0, +-1, small, 99999999, ~sqrt(2^53), 2^31, 1e9+1, 1e12+1, ~1e14, '
+                                 '+-(2^57/1000 + 1), 2^58/1000 + 1, 1e15-1) ' % len(OP_NUMS) +
                                  'with the 4 spelling combinations + random operand pairs of all types; every unary operator; '
                                  'int ** exponent capped at |e| <= 1100. non-trivial = an operand contains an integral number')
     for case in op_cases(ctx):
@@ -2161,7 +2500,10 @@ def streams(ctx):
     host_streams(ctx, lim, names, models, modelled_cases)
 
     # --- boundary values at every argument position, unexpected argument types, expression functions, number producers, fresh process
-    value_streams(ctx, lim, names, models, modelled_cases)
+    sampled = value_streams(ctx, lim, names, models, modelled_cases)
+
+    # --- datetime arithmetic on the magnitude scale; histories that start with ==-equal neighbour values (fresh process)
+    scale_streams(ctx, lim, sampled)
 
     # --- correspondence: implementation vs Lean LibH for both spellings (+ the abstract spec)
     st = ctx.stream('libh-model', 'modelled host-level subset (%s): implementation vs Lean LibH on the int, float and alternating spelling and vs '
@@ -2302,9 +2644,9 @@ def search(ctx):
 
 def replay(witness):
     case = witness['input']
+    if case.get('fresh'):
+        return fresh_differs([case])[0][0]
     if case['kind'] == 'call':
-        if case.get('fresh'):
-            return fresh_differs([case])[0][0]
         return (call_differs_ext(case) if case.get('ext') else call_differs(case))[0]
     if case['kind'] in ('binary', 'unary'):
         return op_differs(case)[0]
@@ -2334,13 +2676,20 @@ LEVEL_TEXT = ('Theorems (all arguments, all argument-model tables): for the host
               'type at every position, the built-in expression-function names, dataCalculatedField expression text, the numbers produced by '
               'literal / arithmetic / jsonParse / mathCeil / stringCharCodeAt / host, and a fresh interpreter running the float spelling first '
               '(streams arg-values/arg-pairs/arg-wrongtype/expr-functions/number-producers/operators-boundary/fresh-order); the model-expressible '
-              'part of those cases (no surrogate char codes: a Lean Char cannot hold one) is also compared with LibH.')
+              'part of those cases (no surrogate char codes: a Lean Char cannot hold one) is also compared with LibH. Every number generator draws '
+              'from a magnitude SCALE ladder (1 ... 2^31, sqrt(2^53), 1e9, 1e12, 2^57/1000, 2^58/1000, 2^59/1000, 1e15-1: point, +-2 neighbourhood of '
+              'both parities, random band values, both signs); datetime arithmetic (datetime + n, n + datetime; operator, script text, data expression) '
+              'over 9 bases from year 1 to 9999 x the whole ladder (stream datetime-scale), the data functions over rows of large values (data-scale), '
+              'and histories in a fresh interpreter that first produce and print -0.0 / true / false and run the case on every ==-equal neighbour of '
+              'its numbers (neighbour-history) are implementation-side only.')
 LEVEL_NOTE = ('proof for the host-level subset (index/count/size/radix/char-code users); translation-validation strength for the remaining library '
               'functions, where numbers only flow into comparison/arithmetic/stringification and Python int-vs-float mixed operations are exact on '
               'the values (assumption, DESIGN 6) - those are covered by the libnum/operators/script streams, not by a theorem. The model is by-value '
-              '(no aliasing); IEEE rounding enters only as the abstract function rnd in roundNumber_refines. Known: F15. Observation, outside the '
-              'quantifier: -0.0 (not float(n) of any int n; equal to 0 by value_compare) prints as "-0" where the int 0 prints "0" (value.py:70), '
-              'reachable as -x / x * -1 on a float zero; results are compared by value, so it is not flagged.')
+              '(no aliasing); IEEE rounding enters only as the abstract function rnd in roundNumber_refines. Known: F15. Open observation (reported, '
+              'not registered): -0.0 as an INPUT is outside the quantifier (it is not float(n) of any int n), but unary - on the integral 0 and n % m '
+              'with m < 0 and a zero result RETURN int 0 for the int spelling and -0.0 for the float spelling (runtime.py unary -, %); the two are equal '
+              'by value_compare yet value_string / value_json print "0" vs "-0" (value.py:70), so `\'\' + (-n)` differs by spelling. Results are compared '
+              'by value here (canon_num maps -0.0 to 0), so it is not flagged; no other operator or library function has a spelling-dependent zero sign.')
 
 
 # extension: further model code, theorems and streams (DESIGN 13.7)
